@@ -51,6 +51,8 @@ TEMPLATES = [
     ('local_import_mix', 'def f(path):\n    import HOLEA\n    first = HOLEA.load(path)\n    second = first + first\n    third = HOLEA.load(second)\n    return third, HOLEB, HOLEC\n'),
     ('nonlocal_two_levels', 'def f():\n    HOLEA = 1\n    def g():\n        HOLEB = 2\n        def h():\n            nonlocal HOLEA, HOLEB\n            HOLEA = HOLEB\n            return HOLEC\n        return h\n    return g\n'),
     ('nested_classes', 'HOLEA = 1\nclass Outer:\n    HOLEA = 2\n    class Inner:\n        HOLEB = HOLEA\n        def m(self):\n            return HOLEA, HOLEB, HOLEC\n'),
+    ('nonlocal_import_method', 'def outer():\n    import HOLEA\n    class K:\n        def m(self, HOLEB):\n            nonlocal HOLEA\n            HOLEA = HOLEB\n            return self, self, self, HOLEC\n    return K\n'),
+    ('global_first_seen', 'def f():\n    global HOLEA, HOLEB\n    HOLEA = 1\n    HOLEB = 2\ndef g():\n    return HOLEA, HOLEB, HOLEC\n'),
     ('setcomp_cond', 'def f(HOLEA, t):\n    return {HOLEB for HOLEB in HOLEA if HOLEB != HOLEC if t(HOLEB)}\n'),
 ]
 
@@ -91,7 +93,16 @@ HOIST_TEMPLATES = [
     ('decorator_default_lambda', '@d("decorator text")\ndef f(HOLEA="decorator text"):\n    return [HOLEB + "decorator text" for HOLEB in HOLEC], (lambda: "decorator text")\n'),
     ('shared_and_local', 'def f(HOLEA):\n    return "shared literal", "shared literal", "only in f!", "only in f!", "only in f!", HOLEA\ndef g(HOLEB):\n    return "shared literal", "shared literal", HOLEB, HOLEC\n'),
     ('class_method_doc', 'class K:\n    """class doc text"""\n    def m(self, HOLEA):\n        """class doc text"""\n        return "class doc text", "class doc text", "class doc text", HOLEA, HOLEB, HOLEC\n'),
+    ('decorator_only', '@tag("/status-page")\ndef status(HOLEA):\n    return ["/status-page", "/status-page", HOLEA, HOLEB, HOLEC]\n'),
+    ('import_and_literal', 'def scan(text):\n    from re import HOLEA\n    return findall("[a-z]+", text, HOLEA), "[a-z]+", "[a-z]+", HOLEB, HOLEC\n'),
     ('str_vs_bytes_same', 'def f(HOLEA):\n    return "same text", "same text", "same text", b"same text", b"same text", b"same text", HOLEA, HOLEB, HOLEC\n'),
+]
+
+# templates with annotated class attributes (C04 with remove_annotations on)
+ANN_TEMPLATES = [
+    ('class_attr_in_function', 'def make(HOLEA):\n    class K:\n        HOLEB: int = 3\n        HOLEC: str\n        def m(self):\n            return self.HOLEB, HOLEA\n    return K\n'),
+    ('class_attr_module', 'class K:\n    HOLEA: int = 3\n    HOLEB: int = HOLEA\n    def m(self, HOLEC: int) -> int:\n        return self.HOLEA + HOLEC\n'),
+    ('function_local_annotated', 'def f(HOLEA: int):\n    HOLEB: int = HOLEA\n    HOLEC: int\n    return HOLEB\n'),
 ]
 
 _PARSED = {}
@@ -133,5 +144,5 @@ def source(k, A, B, C, lib=TEMPLATES):
     return s.replace(HOLES[0], A).replace(HOLES[1], B).replace(HOLES[2], C)
 
 
-for _lib in (TEMPLATES, TAINT_TEMPLATES, PRESERVE_TEMPLATES, HOIST_TEMPLATES):
+for _lib in (TEMPLATES, TAINT_TEMPLATES, PRESERVE_TEMPLATES, HOIST_TEMPLATES, ANN_TEMPLATES):
     _PARSED[id(_lib)] = [ast.parse(t[1]) for t in _lib]
